@@ -29,8 +29,18 @@ def main() -> int:
             mod.run(ctx)
     except MachineryError as e:
         ctx.machinery_errors.append(str(e))
-    except Exception:
-        ctx.machinery_errors.append("harness exception: " + traceback.format_exc()[-1500:])
+    except Exception as e:  # noqa: BLE001
+        from harness.core import Reject, classify_exception
+
+        sut = classify_exception(e)
+        if sut is not None:
+            # the implementation raised while being driven and no event covers it: a verdict, keyed by class and site
+            ctx.rejects.append(Reject(pid, "implementation_raised_while_being_driven",
+                                      {"clause": "implementation_raised_while_being_driven", "exc": sut.exc, "where": sut.where},
+                                      {"message": sut.message}))
+            print(f"  rejected: clause=implementation_raised_while_being_driven exc={sut.exc} where={sut.where}: {sut.message}")
+        else:
+            ctx.machinery_errors.append("harness exception: " + traceback.format_exc()[-1500:])
     rc = ctx.finish()
     cov.save()
     return rc
